@@ -94,7 +94,7 @@ MWEIGHTS = {
     'blacklist': 2, 'group': 3, 'del_group': 1, 'clock': 6, 'cell_event': 1,
     'integrity': 2, 'restart': 0, 'noop': 1, 'blackout_server': 1, 'partition_schedule': 1, 'bucket_new': 1,
     'stale_finished': 1, 'swap_apps': 1, 'retention_update': 1, 'bucket_remove': 0, 'server_delete_event_lost': 1,
-    'servers_reload_all': 1, 'bucket_reparent': 1,
+    'servers_reload_all': 1, 'bucket_reparent': 1, 'stale_presence': 2,
 }
 
 
@@ -385,6 +385,49 @@ class MasterDriver:
         if state == 'frozen':
             self.marks.setdefault(name, set()).update(apps or [])
         self.ops.append(('server_state', name, state, listed))
+
+    def op_stale_presence(self):
+        """The presence watch reads its listing, the world moves on, then the master's main loop processes that
+        listing: a server in it may have lost its presence node meanwhile ('up-then-gone'), one missing from it may
+        have registered again ('gone-then-back').  The next cycle runs before the following listing arrives."""
+        rng, z = self.rng, self.z
+        self.settle_delivery()
+        up = sorted(n for n in self.node_clients if n in self.Z['servers'])
+        down = sorted(n for n in self.Z['servers'] if n not in self.node_clients)
+        kinds = [k for k, ok in (('up-then-gone', down), ('gone-then-back', up)) if ok]
+        if not kinds:
+            return
+        kind = rng.choice(kinds)
+        # (only servers whose recorded state is what presence alone made it: up / down with no operator's hand in it)
+        cands = [n for n in (down if kind == 'up-then-gone' else up)
+                 if (self.zkutils.get_default(self.admin, z.path.placement(n)) or {}).get('state') ==
+                 ('down' if kind == 'up-then-gone' else 'up')]
+        if not cands:
+            return
+        self.interleaving = True            # nothing reaches the master in between
+        try:
+            if kind == 'up-then-gone':
+                name = rng.choice(cands)
+                self.op_presence_up(name)
+                listing = list(self.srv.children(z.SERVER_PRESENCE))
+                self.op_presence_down(name)
+                self.lost.pop(name, None)
+            else:
+                name = rng.choice(cands)
+                self.op_presence_down(name)
+                self.lost.pop(name, None)
+                listing = list(self.srv.children(z.SERVER_PRESENCE))
+                self.op_presence_up(name)
+        finally:
+            self.interleaving = False
+        if (name in listing) != (kind == 'up-then-gone'):
+            return
+        self.master.watch_event_handlers[z.SERVER_PRESENCE](list(listing))
+        self.master.up_to_date = False
+        self.delivered[z.SERVER_PRESENCE] = listing
+        self.stale_presence = dict(kind=kind, server=name, step=self.step_no)
+        self.mon.count('stale_presence_listing_' + kind)
+        self.ops.append(('stale_presence', kind, name))
 
     def op_group(self, name, count):
         self.api.update_identity_group(self.admin, name, count)
@@ -710,6 +753,8 @@ class MasterDriver:
                 for v in victims:
                     del self.Z['apps'][v]
                 self.ops.append(('delete_apps', victims))
+        elif kind == 'stale_presence' and self.master is not None and not getattr(self, 'stale_presence', None):
+            self.op_stale_presence()
         elif kind == 'bucket_reparent' and self.depth == 2:
             # a rack is re-declared under another pod (masterapi.create_bucket on an existing id): a running master
             # never loads a bucket twice and keeps its hierarchy, its successor builds the new one
@@ -886,6 +931,8 @@ class MasterDriver:
             self.rng.shuffle(paths)
         n = 0
         for path in paths:
+            if path == z.SERVER_PRESENCE and getattr(self, 'stale_presence', None):
+                continue            # the listing that follows a stale one arrives after the next cycle
             cur = self.srv.children(path)
             if cur != self.delivered.get(path):
                 self.delivered[path] = cur
